@@ -6,6 +6,7 @@ import (
 	"bytes"
 	"errors"
 	"fmt"
+	"github.com/cbeuw/Cloak/internal/vnet"
 
 	"github.com/cbeuw/Cloak/internal/vrt"
 	"github.com/cbeuw/Cloak/internal/vrt/sync"
@@ -107,6 +108,83 @@ func init() {
 					vrt.Fail("all-bytes-before-eof", "peer read %d bytes after the first write; %d writes of %d bytes were acknowledged", len(rest), nack, ln)
 				}
 				vrt.Observe("acked=%d", nack)
+			},
+		}
+		return vx.RunSched(c, sc, sigOf("C03"))
+	}})
+}
+
+// C03 driver (d): the peer's close arrives while a local Write on that stream is stalled by
+// back-pressure (the peer is not draining the connection). "Once a side has processed the peer's
+// close its blocked reads return": the parked reader gets everything written before the close and
+// then the broken-stream error, although the stalled Write still holds the stream's write lock.
+func init() {
+	vx.Register(&vx.Scenario{Name: "mux.stalledwriter", Prop: "C03", Run: func(c *vx.Ctx) *vx.Report {
+		viaReadFrom := c.P("via", "write") == "readfrom"
+		sc := &vrt.Scenario{
+			Opt:      vrt.Options{Delay: true},
+			Classify: deadlockIs("blocked-calls-return: a Read never returned"),
+			Main: func() {
+				o, _ := MakeObfuscator(EncryptionMethodPlain, rigKey)
+				net := vnet.New()
+				a, b := net.Pair("bp", true)
+				b.SetWriteLimit(1) // the session's writes stall once anything is queued towards the silent peer
+				sesh := MakeSession(7, SessionConfig{Obfuscator: o, Valve: UNLIMITED_VALVE, MsgOnWireSizeLimit: 600})
+				sesh.AddConnection(b)
+				data := []byte("bytes the peer wrote before closing")
+				a.Write(c11Encode(&o, 1, 0, 0, data, 0))
+				conn, err := sesh.Accept()
+				if err != nil {
+					vrt.Fail("harness", "Accept: %v", err)
+				}
+				st := conn.(*Stream)
+				var wg sync.WaitGroup
+				var got []byte
+				var rerr error
+				readerDone := false
+				wg.Add(2)
+				vrt.Go("reader", func() {
+					defer wg.Done()
+					buf := make([]byte, 100)
+					for {
+						n, err := st.Read(buf)
+						got = append(got, buf[:n]...)
+						if err != nil {
+							rerr, readerDone = err, true
+							return
+						}
+					}
+				})
+				vrt.Go("writer", func() {
+					defer wg.Done()
+					if viaReadFrom {
+						src, dst := net.Pair("src", false)
+						vrt.Go("source", func() {
+							src.Write(make([]byte, 50))
+							quiesce()
+							src.Write(make([]byte, 50))
+						})
+						st.ReadFrom(dst)
+						return
+					}
+					for i := 0; i < 3; i++ {
+						if _, err := st.Write(make([]byte, 50)); err != nil {
+							return
+						}
+					}
+				})
+				quiesce()
+				a.Write(c11Encode(&o, 1, 1, closingStream, []byte{0}, 0))
+				quiesce()
+				if !readerDone {
+					vrt.Fail("blocked-reads-return", "the peer's closing notice arrived while a local write on the stream was stalled by back-pressure: the parked reader was not woken (it has read %d of %d bytes)", len(got), len(data))
+				}
+				if !errors.Is(rerr, ErrBrokenStream) || !bytes.Equal(got, data) {
+					vrt.Fail("all-bytes-before-eof", "reader got %q then %v; the peer wrote %q and closed", got, rerr, data)
+				}
+				a.Close() // lets the stalled writer go
+				wg.Wait()
+				vrt.Observe("reader woken")
 			},
 		}
 		return vx.RunSched(c, sc, sigOf("C03"))
